@@ -83,8 +83,17 @@ def generate(seed, index, tier):
                 'k': rng.randrange(0, 6),
                 'scope': rng.choice(['evo', 'evo', 'evo', 'book'])}})
             script.append({'do': 'run', 'driver': 'command'})
-        else:
+        elif rng.random() < 0.5:
             script.append({'do': 'wipe_mark', 'pick': rng.random()})
+        else:
+            # wipe without re-marking: the label is no longer recorded, so
+            # the next upgrade must record it again (exactly once), and
+            # nothing else twice
+            script.append({'do': 'wipe_only', 'pick': rng.random()})
+            if v < n:
+                v = min(n, v + 1)
+                script.append({'do': 'deploy', 'v': v})
+            script.append({'do': 'run', 'driver': 'command'})
     script.append({'do': 'run', 'driver': 'command'})
     h['script'] = script
     return h
@@ -132,6 +141,7 @@ def execute(scn):
     executed_ok = {}       # (app, label) -> run index of successful execution
     failed_persisted = {}
     failed_phase = {}
+    wiped_unmarked = set()
     rows_loaded = False
     cur_v = None
     n_exec_runs = 0
@@ -143,6 +153,22 @@ def execute(scn):
             if step['do'] == 'deploy':
                 proj.deploy(ws, P, step['v'], sts)
                 cur_v = step['v']
+                continue
+            if step['do'] == 'wipe_only':
+                rows = prev['book'].get('django_evolution') or []
+                mine = [r for r in rows if r[2] in P['order']]
+                if not mine:
+                    continue
+                # prefer a label that is not the last one recorded
+                pool = mine[:-1] or mine
+                r = pool[int(step['pick'] * len(pool)) % len(pool)]
+                ws.run('command', {'interactive': False,
+                                   'app_label': r[2]},
+                       command='wipe-evolution', pos=[r[3]])
+                prev = snapshot.snapshot(ws)
+                executed_ok.pop((r[2], r[3]), None)
+                wiped_unmarked.add((r[2], r[3]))
+                stats['wipe_only'] = stats.get('wipe_only', 0) + 1
                 continue
             if step['do'] == 'wipe_mark':
                 rows = prev['book'].get('django_evolution') or []
